@@ -13,6 +13,7 @@ on everything but the dead `default` field), the quoted-message syntax round-tri
 import Dippy.Lemmas.Parse
 import Dippy.Lemmas.Escape
 import Dippy.Lemmas.RoundTrip
+import Dippy.Lemmas.Strip
 
 set_option linter.unusedSimpArgs false
 
@@ -280,5 +281,39 @@ end
 example : parseLine ⟨"/h", fun _ => none⟩ "deny \"message only\"" = .skip := by decide
 example : parseLine ⟨"/h", fun _ => none⟩ "bogus directive" = .skip := by decide
 example : parseLine ⟨"/h", fun _ => none⟩ "set log ~nosuchuser/x" = .skip := by decide
+
+/-! ### indentation and trailing blanks of a line carry no meaning -/
+
+/-- two lines with the same stripped form mean the same -/
+theorem line_congr (e : ParseEnv) (a b : String) (h : Py.strip a = Py.strip b) : parseLine e a = parseLine e b := by
+  delta parseLine
+  rw [h]
+
+/-- a line means what its stripped form means -/
+theorem line_strip_invariant (e : ParseEnv) (raw : String) : parseLine e (Py.strip raw) = parseLine e raw :=
+  line_congr e _ _ (Py.strip_idem raw)
+
+/-- for every line, every indentation and every run of trailing white space (any characters Python's `strip()` removes):
+    the padded line is read exactly as the line itself – a rule cannot be changed, disabled or created by white space
+    around it -/
+theorem line_padding_invariant (e : ParseEnv) (raw : String) (pre suf : List Char)
+    (h1 : ∀ c ∈ pre, Py.isSpace c = true) (h2 : ∀ c ∈ suf, Py.isSpace c = true) :
+    parseLine e (String.ofList (pre ++ raw.toList ++ suf)) = parseLine e raw :=
+  line_congr e _ _ (Py.strip_pad pre suf raw h1 h2)
+
+/-- … and so a whole text whose lines are padded reads as the unpadded text -/
+theorem text_padding_invariant (e : ParseEnv) (lines : List String) (pad : String → List Char × List Char)
+    (hp : ∀ l, (∀ c ∈ (pad l).1, Py.isSpace c = true) ∧ (∀ c ∈ (pad l).2, Py.isSpace c = true)) (c : Config) :
+    parseLines e (lines.map fun l => String.ofList ((pad l).1 ++ l.toList ++ (pad l).2)) c = parseLines e lines c := by
+  have hm : (lines.map fun l => String.ofList ((pad l).1 ++ l.toList ++ (pad l).2)).map (parseLine e) = lines.map (parseLine e) := by
+    induction lines with
+    | nil => rfl
+    | cons l t ih =>
+      simp only [List.map_cons]
+      rw [ih, line_padding_invariant e l _ _ (hp l).1 (hp l).2]
+  rw [parseLines_eq, parseLines_eq, hm]
+
+example : parseLine ⟨"/h", fun _ => none⟩ "  \tdeny rm -rf * \"no\"  " = parseLine ⟨"/h", fun _ => none⟩ "deny rm -rf * \"no\"" ∧
+    parseLine ⟨"/h", fun _ => none⟩ "deny rm -rf * \"no\"" ≠ .skip := by decide +kernel
 
 end Dippy.C11
